@@ -9,4 +9,4 @@ R=${REPO:-/repo}
 LIBFLAGS=("$@"); [ ${#LIBFLAGS[@]} -eq 0 ] && LIBFLAGS=(-O0 -g)
 engine/build_lib.sh $out/lib "${LIBFLAGS[@]}"
 for x in ${UNIT_EXCLUDE}; do rm -f $out/lib/$x.o; done
-${UNIT_CC:-gcc} ${UNIT_CFLAGS:--O0 -g} -w -D_GNU_SOURCE -D_XOPEN_SOURCE -DMYTH_WRAP=MYTH_WRAP_VANILLA -I$R/include -I$R/src -I$R/src/profiler -Iengine/seqmc -Iharness $src -o $out/$name $out/lib/*.o -lpthread -ldl ${UNIT_LIBS}
+${UNIT_CC:-gcc} ${UNIT_CFLAGS:--O0 -g} -w -D_GNU_SOURCE -D_XOPEN_SOURCE -DMYTH_WRAP=MYTH_WRAP_VANILLA -I$R/include -I$R/src -Iengine/fallback -I$R/src -Iengine/fallback/profiler -Iengine/seqmc -Iharness $src -o $out/$name $out/lib/*.o -lpthread -ldl ${UNIT_LIBS}
